@@ -940,6 +940,35 @@ def check_conversion_width(fx, rep, rule="R07.4"):
     rep.floor(rule, n, 1, "conversions of a word to usize / u64")
 
 
+def check_cell_key_width(fx, rep):
+    """R07.4 (cell keys): the memory and storage models address their cells with keys at least as wide as the native word the
+    offsets were converted to (usize): a map keyed by a narrower integer, or a key narrowed with `as`, makes distant offsets
+    share one cell (an MLOAD of a word never written returns what was stored 2^32 bytes away)."""
+    NARROW = ("u8", "u16", "u32", "i8", "i16", "i32")
+    n = 0
+    for adt_name in ("vm::state::memory::Memory", "vm::state::storage::Storage"):
+        adt = fx.adt(adt_name)
+        if not rep.anchor("R07.4", adt is not None, adt_name):
+            continue
+        for f in adt["variants"][0]["fields"]:
+            ty = (f.get("ty") or "").replace(" ", "")
+            m = re.match(r"^std::collections::(HashMap|BTreeMap)<([^,<>]+),", ty)
+            if not m:
+                continue
+            n += 1
+            rep.oblige(m.group(2) not in NARROW, "R07.4", f"cell-key-type:{adt_name.split('::')[-1]}.{f['name']}", "-", f"`{adt_name}`.{f['name']} is keyed by `{m.group(2)}`: offsets that differ by a multiple of 2^{ {'u8': 8, 'i8': 8, 'u16': 16, 'i16': 16}.get(m.group(2), 32) } name the same cell", sample={"rule": "R07.4", "field": f["name"], "key_type": m.group(2)})
+        for b in fx.fn_bodies():
+            if b.get("impl_self") != adt_name or not b.get("hir"):
+                continue
+            for c, _ in F.calls(b["hir"]["value"]):
+                if c.get("k") == "MethodCall" and c["method"] in ("entry", "get", "get_mut", "insert", "remove", "contains_key") and "collections::" in (c.get("recv_ty") or "") and c["args"]:
+                    casts = [x for x, _ in F.walk(c["args"][0]) if x.get("k") == "Cast" and (x.get("ty") or "") in NARROW]
+                    n += 1
+                    if casts:
+                        rep.oblige(False, "R07.4", f"cell-key-cast:{F.strip_generics(b['def'])}", F.loc(c["span"]), f"`{b['def']}` narrows a cell key with `as {casts[0].get('ty')}`: distant offsets share one cell")
+    rep.floor("R07.4", n, 6, "cell maps and keyed accesses of the memory / storage models")
+
+
 def check_key_agreement(fx, rep, cg):
     """Writers and readers of one keyed store (storage, memory) must normalise the key the same way before looking it up:
     a write filed under `fold(key)` is invisible to a read that looks under `key`."""
@@ -1003,6 +1032,7 @@ def check(fx, rep, tier):
     check_r073(fx, rep, cg, dm)
     check_r074(fx, rep, cg)
     check_key_agreement(fx, rep, cg)
+    check_cell_key_width(fx, rep)
     check_byte_order(fx, rep, cg)
     check_pc_value(fx, rep)
     check_conversion_width(fx, rep)
